@@ -218,7 +218,9 @@ class Table:
             ok = (isinstance(v, Tup) and len(v.items) == 1 and v.items[0] == labels(role)) or (isinstance(v, Axis) and v.role == role and v.parsed) \
                 or (is_sym(v) and sp.sympify(v) == labels(role))
             if not ok:
-                raise ev.err(f"{name} replaced by something that is not float(label) of the same axis", node, mod)
+                e = ev.err(f"{name} replaced by something that is not float(label) of the same axis", node, mod)
+                e.label_mismatch = (name, v)
+                raise e
             self.parsed[name] = True
             return
         raise ev.err(f"store to table attribute {name}", node, mod)
